@@ -98,14 +98,13 @@ def v3_packet(key, ctr, payload, rnd, typ):
 contract(V3 + "._encode_encrypted_request",
          params={"self": "obj:" + V3, "packet_id": "int[0,65535]", "data": "bytes"},
          requires=["len(data) <= 65000"],
-         rtype="bytes",
          raises={LAN + "ProtocolError": {"when": "self._local_key is None"}},
-         post_let={"plain": "aes_cbc_dec(self._local_key, result[6:-32])", "rnd": "aes_cbc_dec(self._local_key, result[6:-32])[2 + len(data):]"},
+         exists={"rnd": {"len": "v3_pad(len(data))", "witness": "aes_cbc_dec(self._local_key, result[6:-32])[2 + len(data):]"}},
+         returns="v3_packet(self._local_key, packet_id, data, rnd, 6)",
          ensures={"authenticated": "self._local_key is not None",
-                  "format": "result == v3_packet(self._local_key, packet_id, data, rnd, 6)",
-                  "padding": "len(rnd) == v3_pad(len(data))",
+                  "length": "len(result) == 40 + len(data) + v3_pad(len(data))",
                   "size_field": "int.from_bytes(result[2:4], 'big') + 8 == len(result)",
-                  "block_aligned": "len(plain) % 16 == 0"})
+                  "block_aligned": "len(result[6:-32]) % 16 == 0"})
 
 contract(V3 + "._decode_encrypted_response",
          params={"self": "obj:" + V3, "packet": "memoryview"},
@@ -134,3 +133,66 @@ contract(V3 + "._process_packet",
          raises={LAN + "ProtocolError": {}},
          ensures={"type": "(packet[5] & 0xF) == 3 or (packet[5] & 0xF) == 1",
                   "handshake_payload": "implies((packet[5] & 0xF) == 1, result == packet[8:])"})
+
+
+# ---- C06: handshake -----------------------------------------------------------------------------------------------------
+def hs_request(ctr, token):
+    return b"\x83\x70" + be16(len(token)) + b"\x20" + bytes([0x00]) + be16(ctr) + token
+
+
+def hs_reply_ok(key, data):
+    """the reply proves knowledge of the key: 32 bytes encrypted nonce followed by sha256(nonce)"""
+    return len(data) == 64 and sha256(aes_cbc_dec(key, bytes(data[:32]))) == data[32:]
+
+
+contract(V3 + "._encode_handshake_request",
+         params={"self": "obj:" + V3, "packet_id": "int[0,65535]", "data": "bytes"},
+         requires=["len(data) <= 65000"],
+         returns="hs_request(packet_id, data)", raises={})
+
+contract(V3 + "._get_local_key",
+         params={"self": "obj:" + V3, "key": "bytes[32]", "data": "memoryview"},
+         rtype="bytes[32]",
+         raises={LAN + "AuthenticationError": {"when": "not hs_reply_ok(key, data)"}},
+         ensures={"reply_proves_key": "hs_reply_ok(key, data)",
+                  "session_key": "result == xor_bytes(aes_cbc_dec(key, bytes(data[:32])), key)"})
+
+contract(V3 + "._get_local_key#genuine",
+         params={"self": "obj:" + V3, "key": "bytes[32]", "nonce": "bytes[32]"},
+         let={"data": "memoryview(aes_cbc_enc(key, nonce) + sha256(nonce))"},
+         bind={"data": "data"},
+         raises={},
+         ensures={"key_agreement": "result == xor_bytes(nonce, key)"})
+
+contract(LAN + "_LanProtocol._flush",
+         params={"self": "obj:" + V3},
+         raises={}, modifies=["self._queue"],
+         ensures={"drained": "self._queue.empty()"},
+         loops={"0": {"modifies": ["self._queue"], "havoc": {"self._queue": "ext:queue:v3_queued"}}})
+
+contract(LAN + "_LanProtocol.write",
+         params={"self": "obj:" + V3, "data": "bytes"},
+         requires=["self._transport is not None"],
+         raises={LAN + "ProtocolError": {"post": {"nothing_written": "len(events('tx')) == 0"}}},
+         emits={"tx": "data"},
+         ensures={"written_once": "len(events('tx')) == 1 and events('tx')[0] == data"})
+
+contract(V3 + ".write",
+         params={"self": "obj:" + V3, "data": "bytes", "packet_type": "enum:" + V3 + ".PacketType"},
+         requires=["self._transport is not None", "0 <= self._packet_id <= 0xFFF", "len(data) <= 65000"],
+         modifies=["self._packet_id"],
+         raises={LAN + "ProtocolError": {"post": {"nothing_written": "len(events('tx')) == 0", "counter_unchanged": "self._packet_id == old(self._packet_id)"}},
+                 "builtins.TypeError": {"when": "packet_type != 6 and packet_type != 0",
+                                        "post": {"nothing_written": "len(events('tx')) == 0", "counter_unchanged": "self._packet_id == old(self._packet_id)"}}},
+         emits={"tx": "hs_request(old(self._packet_id), data) if packet_type == 0 else v3_data_packet(self, old(self._packet_id), data)"},
+         post_let={"T": "events('tx')"},
+         ensures={"one_packet": "len(T) == 1",
+                  "counter_advances_and_wraps": "self._packet_id == (old(self._packet_id) + 1) & 0xFFF",
+                  "handshake_format": "implies(packet_type == 0, T[0] == hs_request(old(self._packet_id), data))",
+                  "data_needs_session_key": "implies(packet_type == 6, self._local_key is not None)",
+                  "data_format": "implies(packet_type == 6, T[0][:6] == b'\\x83\\x70' + be16(len(data) + v3_pad(len(data)) + 32) + b'\\x20' + bytes([(v3_pad(len(data)) << 4) | 6]) and sha256(bytes(T[0][:6]) + aes_cbc_dec(self._local_key, T[0][6:-32])) == T[0][-32:] and aes_cbc_dec(self._local_key, T[0][6:-32])[:2 + len(data)] == be16(old(self._packet_id)) + data)"})
+
+
+def v3_data_packet(proto, ctr, data):
+    """some encrypted request for (ctr, data) under the protocol's session key (random padding left open)"""
+    return proto._encode_encrypted_request(ctr, data)
